@@ -43,6 +43,10 @@
   `pipeline_chunking_irrelevant(_truncated)`: every chunk schedule of the pipeline buffer gives the same list of objects.
   NOT proved: a truncated text that is not the last one (not a pipeline: the announced bytes are taken from the next
   text); a last text whose header block is incomplete; schedules in which an earlier call already carries the flag.
+  SCOPE NOTES after the second sceptical review (AB1): "every chunk schedule of the pipeline buffer" = one schedule PER
+  MESSAGE, each started on the Reset object, the last buffer of each schedule parsed with the final flags (`tpScheds`);
+  in `pipeline_last_truncated` the object of the flagged stand-alone call is `paAlone` by definition — the content of that
+  conjunct is its offset, verdict and body read-back.
 -/
 import Sipsp.Model.Msg
 import Sipsp.Proofs.ShiftMsg
